@@ -115,7 +115,7 @@ func (s *SMTPServer) SetSelect(f func(from string, n int) *SMTPTxn) {
 
 // NewSMTPServer starts the server on a loopback TCP port.
 func NewSMTPServer(cfg SMTPServerConfig) (*SMTPServer, error) {
-	l, err := net.Listen("tcp4", "127.0.0.1:0")
+	l, err := listenLoopback()
 	if err != nil {
 		return nil, err
 	}
@@ -129,6 +129,51 @@ func NewSMTPServer(cfg SMTPServerConfig) (*SMTPServer, error) {
 	s.wg.Add(1)
 	go s.serve()
 	return s, nil
+}
+
+// listenLoopback binds a loopback TCP port; when the ephemeral port range is
+// momentarily exhausted (thousands of short-lived connections in TIME_WAIT) it
+// retries for a while instead of failing the harness.
+func listenLoopback() (net.Listener, error) {
+	var l net.Listener
+	var err error
+	for i := 0; i < 300; i++ {
+		l, err = net.Listen("tcp4", "127.0.0.1:0")
+		if err == nil {
+			return l, nil
+		}
+		time.Sleep(100 * time.Millisecond)
+	}
+	return nil, err
+}
+
+// Reconfigure replaces the parts of the configuration that may change between
+// behaviours when one server is reused (capabilities, event sink) and forgets
+// the recorded transactions. Only call it while no connection is open.
+func (s *SMTPServer) Reconfigure(f func(c *SMTPServerConfig)) {
+	s.mu.Lock()
+	defer s.mu.Unlock()
+	f(&s.cfg)
+	s.txns = nil
+	s.sel = nil
+}
+
+// WaitIdle waits until every accepted connection has ended (their handlers have
+// logged SrvClose). Reports false on time-out.
+func (s *SMTPServer) WaitIdle(d time.Duration) bool {
+	deadline := time.Now().Add(d)
+	for {
+		s.mu.Lock()
+		n := len(s.open)
+		s.mu.Unlock()
+		if n == 0 {
+			return true
+		}
+		if time.Now().After(deadline) {
+			return false
+		}
+		time.Sleep(time.Millisecond)
+	}
 }
 
 func (s *SMTPServer) Addr() string { return s.l.Addr().String() }
@@ -569,6 +614,7 @@ type SMTPNet struct {
 	mu      sync.Mutex
 	servers map[string]*SMTPServer
 	dialled map[*SMTPServer]int
+	base    map[*SMTPServer]int // connections the server had settled before it was added
 	// TimedOut is set when the harness itself had to give up waiting; this is an
 	// infrastructure problem, never a verdict about the code under test.
 	TimedOut bool
@@ -576,7 +622,8 @@ type SMTPNet struct {
 }
 
 func NewSMTPNet() *SMTPNet {
-	return &SMTPNet{servers: map[string]*SMTPServer{}, dialled: map[*SMTPServer]int{}, Wait: 20 * time.Second}
+	return &SMTPNet{servers: map[string]*SMTPServer{}, dialled: map[*SMTPServer]int{}, base: map[*SMTPServer]int{},
+		Wait: 20 * time.Second}
 }
 
 func normHost(h string) string { return strings.ToLower(strings.TrimSuffix(h, ".")) }
@@ -585,6 +632,9 @@ func (n *SMTPNet) Add(host string, s *SMTPServer) {
 	n.mu.Lock()
 	defer n.mu.Unlock()
 	n.servers[normHost(host)] = s
+	if _, ok := n.base[s]; !ok {
+		n.base[s], _ = s.settledCount()
+	}
 }
 
 // Settle waits until all connections dialled so far have settled.
@@ -592,7 +642,7 @@ func (n *SMTPNet) Settle() error {
 	n.mu.Lock()
 	want := map[*SMTPServer]int{}
 	for s, k := range n.dialled {
-		want[s] = k
+		want[s] = k + n.base[s]
 	}
 	n.mu.Unlock()
 	deadline := time.After(n.Wait)
@@ -633,14 +683,19 @@ func (n *SMTPNet) DialContext(ctx context.Context, network, addr string) (net.Co
 	n.mu.Lock()
 	n.dialled[s]++
 	n.mu.Unlock()
-	c, err := (&net.Dialer{Timeout: n.Wait}).Dial("tcp4", s.Addr())
-	if err != nil {
-		n.mu.Lock()
-		n.dialled[s]--
-		n.mu.Unlock()
-		return nil, err
+	var c net.Conn
+	for i := 0; i < 150; i++ { // ride out a momentarily exhausted ephemeral port range
+		c, err = (&net.Dialer{Timeout: n.Wait}).Dial("tcp4", s.Addr())
+		if err == nil {
+			return c, nil
+		}
+		time.Sleep(100 * time.Millisecond)
 	}
-	return c, nil
+	n.mu.Lock()
+	n.dialled[s]--
+	n.TimedOut = true // the harness could not connect to its own server: infrastructure, not a verdict
+	n.mu.Unlock()
+	return nil, err
 }
 
 // ---------------------------------------------------------------------------
